@@ -184,8 +184,8 @@ def randomDesigns (N : Nat) (params : List (Rat × Rat × Rat)) (draws : List (L
     | some us => genVector params us
     | none => none)
 
-/-- Envelope predicate for one returned coordinate: some draw `u` of the recorded ones explains it exactly
-(`tolNum/tolDen`-relative band handled by the harness; here exact membership of the candidate list). -/
+/-- The values `gen_number` can return for the recorded `random()` values `us` (the harness checks that every
+returned coordinate is, within the R2 band, one of them). -/
 def genCandidates (lb ub prec : Rat) (us : List Rat) : List Rat := us.map (genNumber lb ub prec)
 
 end Artap.Sampling
